@@ -58,6 +58,12 @@ extern ssize_t mpt_outdata_push(MPT_STRUCT(outdata) *od, size_t len, const void 
 		if (od->_idlen && !(od->state & MPT_OUTFLAG(Active)) && len != od->_idlen) {
 			return MPT_ERROR(BadValue);
 		}
+		/* new message, discard processed input data */
+		if (!(od->state & MPT_OUTFLAG(Active))
+		    && (buf = od->buf._buf)
+		    && buf->_used > od->_smax) {
+			buf->_used = od->_smax;
+		}
 		/* new data to push */
 		if (!mpt_array_append(&od->buf, len, src)) {
 			return MPT_ERROR(BadOperation);
